@@ -83,10 +83,10 @@ def gen_text(rng, big):
             if j:
                 args += ws(rng) + "," + ("\n" + rng.choice(["  ", "\t", "      "]) if wrap and rng.random() < 0.7 else ws(rng))
             args += o_
-        lines.append(("gate", f"{name}{ws(rng, 0.7)}={ws(rng, 0.7)}{k}({ws(rng)}{args}{ws(rng)})"))
+        lines.append(("gate", f"{name}{ws(rng, 0.7)}={ws(rng, 0.7)}{k}{ws(rng, 0.15)}({ws(rng)}{args}{ws(rng)})"))
     for q, d in dffs:
         k = "dff" if rng.random() < 0.3 else "DFF"
-        lines.append(("dff", f"{q}{ws(rng, 0.7)}={ws(rng, 0.7)}{k}({ws(rng)}{d}{ws(rng)})"))
+        lines.append(("dff", f"{q}{ws(rng, 0.7)}={ws(rng, 0.7)}{k}{ws(rng, 0.15)}({ws(rng)}{d}{ws(rng)})"))
     order = rng.choice(["canonical", "shuffled", "shuffled", "outputs_last", "reverse"])
     if order == "shuffled":
         rng.shuffle(lines)
